@@ -273,7 +273,7 @@ theorem exec_untouched (ops : List Op) : ∀ (fs : FS) (p : String), (∀ op ∈
     exact execOp_untouched fs o p (h o (List.mem_cons_self ..))
 
 /-- the operations for a source file change nothing but that file and its destination -/
-theorem fileOps_touches' (inv : Inv) (env : Env) (src : String) :
+theorem fileOps_touches_all (inv : Inv) (env : Env) (src : String) :
     ∀ op ∈ (fileOps inv env src).1, ∀ p ∈ touches op, p = src ∨ dstOf inv src = some p := by
   unfold fileOps
   by_cases c1 : (inv.mode == Mode.test || inv.toStdout) = true
@@ -290,7 +290,7 @@ theorem fileOps_touches' (inv : Inv) (env : Env) (src : String) :
           simp [c3, c4, c5, touches]
 
 theorem fileOps_touches (inv : Inv) (env : Env) (src : String) (op : Op) (hop : op ∈ (fileOps inv env src).1) (p : String) (hp : p ∈ touches op) :
-    p = src ∨ dstOf inv src = some p := fileOps_touches' inv env src op hop p hp
+    p = src ∨ dstOf inv src = some p := fileOps_touches_all inv env src op hop p hp
 
 /-- sources and destinations of one run do not collide: no destination is also a source, two sources have different destinations -/
 def Separate (inv : Inv) (files : List String) : Prop :=
